@@ -14,6 +14,8 @@ def run(ctx):
     rule_L1_sampler(ctx, {'rows', 't', 'shell'})
     rule_L2_move(ctx)
     rule_L3_L4(ctx)
+    from ..rowfacts import rule_M9
+    rule_M9(ctx)      # a proposal is handed out once
     from ..sampler_rules import rule_L3b
     k3b = rule_L3b(ctx)
     ctx.require(k3b >= 1, 'L3b: test of the returned blobs not found in add_samples')
